@@ -21,8 +21,8 @@ RULE = ('Generated panels (1-6 geos quick / 1-7 thorough), all eligibility matri
         'returned >= 1 design and the feasible set has >= 2 members; distinct by input description.')
 ASSUMPTIONS = ['inputs on which either search raises are counted, not judged (C09)']
 EXHAUSTIVE = {'quick': False, 'thorough': False}
-MINIMA = {'quick': {'shared_data_searches': 40, 'near_bound_cases': 25, 'dyadic_compared': 30, 'compared': 200, 'greedy_designs': 150, 'distinct_nontrivial': 80, 'referee_runs': 40},
-          'thorough': {'shared_data_searches': 400, 'near_bound_cases': 250, 'dyadic_compared': 300, 'compared': 2500, 'greedy_designs': 2000, 'distinct_nontrivial': 1000, 'referee_runs': 500}}
+MINIMA = {'quick': {'flat_treatment_cases': 10, 'must_include_overflow_cases': 10, 'shared_data_searches': 40, 'near_bound_cases': 25, 'dyadic_compared': 30, 'compared': 200, 'greedy_designs': 150, 'distinct_nontrivial': 80, 'referee_runs': 40},
+          'thorough': {'flat_treatment_cases': 100, 'must_include_overflow_cases': 100, 'shared_data_searches': 400, 'near_bound_cases': 250, 'dyadic_compared': 300, 'compared': 2500, 'greedy_designs': 2000, 'distinct_nontrivial': 1000, 'referee_runs': 500}}
 N = {'quick': 400, 'thorough': 3600}
 CASE_TIMEOUT = {'quick': 300, 'thorough': 1200}
 
@@ -54,9 +54,41 @@ def run_case(spec):
     case['params']['n_test'] = min(case['params']['n_test'], len(case['panel']['dates']) - 4)
   else:
     case = sl.make_case(r, g, G, focus=focus, allow=('size', 'ratio', 'volume', 'ngeos'))
+  counters = collections.Counter()
+  ids_ = [str(i) for i in case['panel']['ids']]
+  if not dyadic and spec['idx'] % 12 == 7 and G >= 3:
+    # a geo with a perfectly flat response is fixed to treatment and every other geo can only be a control geo (or
+    # left out): the only treatment group has an undefined correlation with every control group
+    from mmv import gen as _gen  # pylint: disable=g-import-not-at-top
+    k = r.randrange(G)
+    case['elig_rows'] = {gid: ('t_fixed' if i == k else r.choice(['cx', 'cx', 'c_fixed'])) for i, gid in enumerate(ids_)}
+    case['panel']['values'][k, :] = float(round(case['panel']['values'][k].mean())) if r.random() < 0.7 else 0.0
+    case['panel']['present'][k, :] = True
+    case['panel']['dups'] = None
+    case['frame'] = _gen.panel_frame(case['panel'], r, shuffle=True)
+    case['extra'] = {}
+    for k2 in ('n_geos_max', 'treatment_geos_range', 'control_geos_range', 'geo_ratio_tolerance', 'volume_ratio_tolerance'):
+      if r.random() < 0.7:
+        case['params'].pop(k2, None)
+    counters['flat_treatment_cases'] += 1
+  elif not dyadic and spec['idx'] % 12 == 3 and G >= 3:
+    # at least n_geos_max geos may not be left out (they are never dropped by the truncation)
+    kt = r.randrange(1, min(3, G - 1) + 1)
+    kc = r.randrange(1, min(2, G - kt) + 1)
+    order = list(range(G))
+    r.shuffle(order)
+    rows = {}
+    for pos_, i in enumerate(order):
+      rows[ids_[i]] = 't_fixed' if pos_ < kt else 'c_fixed' if pos_ < kt + kc else r.choice(['cx', 'ctx', 'tx', 'ct'])
+    case['elig_rows'] = rows
+    case['extra'] = {}
+    case['params']['n_geos_max'] = max(2, r.choice([kt, kt, kt + 1, kt + kc]))
+    for k2 in ('treatment_geos_range', 'control_geos_range', 'geo_ratio_tolerance', 'volume_ratio_tolerance'):
+      if r.random() < 0.7:
+        case['params'].pop(k2, None)
+    counters['must_include_overflow_cases'] += 1
   truth = sl.Truth(case)
   desc = sl.describe(case, with_frame=False)
-  counters = collections.Counter()
   violations = []
   near = (not dyadic) and spec['idx'] % 6 == 4 and G >= 3
   if near:
